@@ -14,7 +14,9 @@ SPEC = {
     "drivers": [{"pkg": "internal/config", "test": "TestVerifC01", "timeout": 1500},
                 {"pkg": "internal/corerad", "test": "TestVerifC01Handle", "timeout": 600},
                 # a running Advertiser re-dialled onto an interface that changed in between (hardware address, index)
-                {"pkg": "internal/corerad", "test": "TestVerifC01Redial", "newgo": True, "timeout": 300}],
+                {"pkg": "internal/corerad", "test": "TestVerifC01Redial", "newgo": True, "timeout": 300},
+                # the wildcards as in production: real Prepare + rtnetlink in a private network namespace whose addresses change
+                {"pkg": "internal/plugin", "test": "TestVerifNetnsWildcards", "arch386": []}],
     "rule": "random TOML interface: every header key absent / at a limit / random (fractional max_interval, default_lifetime 0 / auto / max / 9000s, "
             "timers 0..1h with sub-ms parts), 0..3 stanzas of each kind (prefix static or ::/64, route static with lengths not multiple of 8 or ::/0, "
             "rdnss static / :: / empty, dnssl, pref64 default / given / invalid), mtu, source_lla, captive_portal, deprecated flags with boundary lifetimes; "
